@@ -22,6 +22,10 @@ theorem lookup_calls_table_lookup_once :
     lookupMatcher = "route.Matcher[g.Config.Proxy.Matcher]" ∧
     streamLookupArgs = "ctx, info.FullMethod" := by decide
 
+/-- The synthetic request sets `Host`, `URL` and `Header` only: `TLS` stays nil, so the routing model (C03)
+is applied with `tls := false` (`Props/C16Compose.lean: grpcReq`). -/
+theorem synthetic_request_has_no_tls : reqFields = ["Host", "URL", "Header"] := by decide
+
 /-- The interceptor looks up first, answers a nil target with `codes.NotFound` and returns there — before
 the (single) call of the handler, which alone leads to director and pool. A lookup error is `codes.Internal`. -/
 theorem nil_target_returns_notfound_before_handler :
